@@ -40,7 +40,7 @@ BASES = 'ACGT'
 def plan(tier):
     if tier == 'quick':
         return {'runs': 12000, 'budget_s': 45, 'chunk': 25, 'per_run_timeout': 300}
-    return {'runs': 80000, 'budget_s': 560, 'chunk': 20, 'per_run_timeout': 600}
+    return {'runs': 1200000, 'budget_s': 540, 'chunk': 20, 'per_run_timeout': 600}
 
 
 def setup():
